@@ -20,7 +20,7 @@ impl Property for C10 {
     }
 
     fn budget(&self) -> (u64, u64) {
-        (1_200_000, 30_000_000)
+        (800_000, 24_000_000)
     }
 
     fn rule(&self) -> &'static str {
@@ -36,10 +36,38 @@ impl Property for C10 {
         ]
     }
 
-    fn generate(&self, rng: &mut Rng, _thorough: bool) -> J {
+    fn generate(&self, rng: &mut Rng, thorough: bool) -> J {
         let exec = rng.chance(15, 100);
         let head = rng.chance(1, 2);
-        let alphabet = *rng.pick(&[Alphabet::Ascii, Alphabet::Utf8, Alphabet::Utf8, Alphabet::CrBlank]);
+        let alphabet = *rng.pick(&[Alphabet::Ascii, Alphabet::Utf8, Alphabet::Utf8, Alphabet::CrBlank, Alphabet::Odd]);
+        // size regime: one line beyond every buffer in the system (64 KiB .. 1.2 MiB), appended in pieces
+        let giant = rng.chance(if thorough { 20 } else { 3 }, 1000);
+        if giant {
+            let len = *rng.pick(&[66_000usize, 70_000, 131_100, 200_000, 1_100_000]);
+            let len = if !thorough && len > 300_000 { 140_000 } else { len };
+            let mut app_lines: Vec<Vec<u8>> = vec![gen::gen_line(rng, alphabet, 16, false), gen::gen_giant_line(rng, len), gen::gen_line(rng, alphabet, 16, false)];
+            if rng.chance(1, 2) {
+                app_lines.swap(0, 1);
+            }
+            let append = gen::join_lines(&app_lines, true);
+            let mut cuts: Vec<usize> = (0..rng.range(1, 4)).map(|_| rng.range(1, append.len() as i64 - 1) as usize).collect();
+            cuts.sort();
+            cuts.dedup();
+            let cfg = gen::SchedCfg { poll_gap_pct: 30, eintr_pct: 0, short_pct: 0 };
+            let steps = gen::gen_steps(rng, &cfg, cuts.len() + 1, 3, 2);
+            return json!({
+                "prop": "C10",
+                "mode": if exec { "exec" } else { "iter" },
+                "head": head,
+                "cap": if exec { 8192 } else { *rng.pick(&[4096usize, 8192, 65536, 1 << 20]) },
+                "initial": enc(&gen::join_lines(&[gen::gen_line(rng, alphabet, 16, false)], true)),
+                "append": enc(&append),
+                "cuts": cuts,
+                "steps": steps_to_json(&steps),
+                "read_mode": "bulk",
+                "idle": 1,
+            });
+        }
         let cap = if exec { 8192 } else { *rng.pick(&gen::CAPS) };
         let allow_huge = rng.chance(1, 10);
         let n_init = rng.below(4);
@@ -202,6 +230,7 @@ impl Property for C10 {
         out.probe("append_boundary_inside_line", boundary_inside_line as u64);
         out.probe("line_longer_than_buffer", whole.split(|b| *b == b'\n').any(|l| l.len() > cap) as u64);
         out.probe("mode_exec", exec as u64);
+        out.probe("line_longer_than_64k_across_polls", (partial_poll && whole.split(|b| *b == b'\n').any(|l| l.len() > 65536)) as u64);
         out.probe("no_head", (!head) as u64);
         out.fault("torn_append", chunks.len().saturating_sub(1) as u64);
         if boundary_inside_line && partial_poll {
